@@ -42,6 +42,7 @@ func (g *Gen) emit(line string) string {
 		g.emit1("obs")
 	case "confirm", "truncate":
 		g.emit1("ledger")
+		g.emit1("lcheck")
 	}
 	return ans
 }
@@ -417,7 +418,25 @@ func (g *Gen) scenario(p *Profile) {
 				g.emit(fmt.Sprintf("walk %d fault=1", cl[g.r.Intn(len(cl))]))
 			case 3:
 				st := e.stateTip()
-				if st == e.ledgerTip() {
+				if st == e.ledgerTip() && g.r.Chance(1, 2) {
+					// own block: confirm, then PlayForMiner whose write fails, then retry
+					txs, err := w.Main.S.GetUnconfirmedTx(false)
+					if err != nil {
+						break
+					}
+					var ids []string
+					for _, t := range txs {
+						ids = append(ids, fmt.Sprint(w.TxByID[string(t.Txid)]))
+					}
+					bi := len(w.Blocks)
+					g.emit(fmt.Sprintf("blk %d pre=%d prop=m0 aa=%d aw=%d txs=%s", bi, st, w.Award, len(w.Txs), strings.Join(ids, ",")))
+					if g.emit(fmt.Sprintf("confirm %d", bi)) != "fail" {
+						g.confirmed[bi] = true
+						g.emit(fmt.Sprintf("playminer %d fault=1", bi))
+						g.emit("cmpcopy")
+						g.emit(fmt.Sprintf("playminer %d", bi))
+					}
+				} else if st == e.ledgerTip() {
 					bi := len(w.Blocks)
 					g.emit(fmt.Sprintf("blk %d pre=%d prop=m1 aa=%d aw=%d txs=", bi, st, w.Award, len(w.Txs)))
 					if g.r.Chance(1, 2) {
